@@ -58,8 +58,8 @@ def _prune_cache(keep):
     if not os.path.isdir(base):
         return
     ents = sorted((os.path.getmtime(os.path.join(base, d)), d) for d in os.listdir(base))
-    # keep the 4 most recent keys
-    for _, d in ents[:-4]:
+    # keep the 6 most recently used keys
+    for _, d in ents[:-6]:
         if d != keep:
             shutil.rmtree(os.path.join(base, d), ignore_errors=True)
 
@@ -73,6 +73,10 @@ def ensure_facts(config='default', repo=REPO, log=None):
     fdir = os.path.join(CACHE, 'facts', key, config)
     done = os.path.join(fdir, '.complete')
     if os.path.exists(done):
+        try:
+            os.utime(os.path.join(CACHE, 'facts', key))   # least-recently-used pruning
+        except OSError:
+            pass
         return fdir
     os.makedirs(CACHE, exist_ok=True)
     with open(os.path.join(CACHE, 'lock'), 'w') as lk:
@@ -239,6 +243,7 @@ class Result:
                 self.error(rid, 'rule %s matched %d instances, below the floor %d confirmed by hand: the anchor moved or the rule went vacuous' % (rid, r['instances'], r['floor']))
 
 
+COLLECT_ONLY = False
 EVIDENCE_DIR = os.environ.get('VERIF_EVIDENCE_DIR', os.path.join(VERIF, 'evidence'))
 
 
@@ -291,7 +296,20 @@ def finish(res, tier, t0, level='other', explanation='', trusted=None, distinct=
         seed = int(os.environ.get('VERIF_SEED', seed) or 0)
     except ValueError:
         seed = 0
+    if COLLECT_ONLY:
+        # another check is consulting this one as the backing rule of a reviewed table entry
+        res.extra.pop('_backings', None)
+        res.check_floors()
+        return res
+    if res.extra.get('_backings'):
+        from rules import backing
+        backing.evaluate(res)
     res.check_floors()
+    try:
+        from rules import backing as _b
+        _b.store(res.pid, _b.summarise(res))
+    except Exception:
+        pass
     known = [k for k in load_known() if k['property'] == res.pid and k.get('status') == 'known']
     known_keys = {k['key']: k for k in known}
     real = []
